@@ -12,7 +12,7 @@ import ast
 import itertools
 from typing import Any, Dict, List, Optional, Tuple
 
-from mtsa.absint import K, R, S, U, V
+from mtsa.absint import State,  K, R, S, U, V
 from mtsa.index import Repo, calls_in, dotted, norm, walk_no_nested
 from mtsa.report import AnalysisError, Ctx
 
@@ -197,34 +197,80 @@ def rule_optional(ctx: Ctx, repo: Repo) -> None:
               construct="; ".join(norm(c) for c in adds))
 
 
+def argparse_table(repo: Repo) -> List[Tuple[str, bool, Tuple[str, ...], Dict[str, V]]]:
+    """(sub-command, inside a mutually exclusive group, flags, keyword arguments) of every add_argument call reached by
+    interpreting cli.main up to parse_args - however the parser construction is split into helpers"""
+    from .cli_model import CLI, CliScenario
+    recs: List[Tuple[str, bool, Tuple[str, ...], Dict[str, V]]] = []
+    counter = [0]
+
+    def hook(call, fname, fval, args, kwargs, st):
+        m = call.func.attr if isinstance(call.func, ast.Attribute) else None
+        d = fname or ""
+        def new(kind: str, cmd: Any, excl: bool = False) -> R:
+            counter[0] += 1
+            return R("argparse", what=K(kind), cmd=K(cmd), exclusive=K(excl), n=K(counter[0]))
+        if d in ("argparse.ArgumentParser", "ArgumentParser"):
+            return new("parser", None)
+        if isinstance(fval, R) and fval.kind == "argparse" and m is not None:
+            cmd = fval.fields["cmd"].v
+            if m == "add_subparsers":
+                return new("subparsers", cmd)
+            if m == "add_parser" and args and isinstance(args[0], K):
+                return new("parser", args[0].v)
+            if m == "add_mutually_exclusive_group":
+                return new("group", cmd, True)
+            if m == "add_argument_group":
+                return new("group", cmd, fval.fields["exclusive"].v)
+            if m == "add_argument":
+                flags = tuple(a.v for a in args if isinstance(a, K) and isinstance(a.v, str))
+                recs.append((cmd or "", bool(fval.fields["exclusive"].v), flags, {k: st.freeze(v) for k, v in kwargs.items()}))
+                return K(None)
+            if m == "set_defaults":
+                recs.append((cmd or "", False, ("<defaults>",), {k: st.freeze(v) for k, v in kwargs.items()}))
+                return K(None)
+            if m == "parse_args":
+                return st.alloc("obj", {"config": K("x"), "command": K(None), "limit": K(None)})
+            if m == "print_help":
+                return K(None)
+        if d in ("get_monkeytype_config",):
+            return S("config")
+        if d in ("update_args_from_config",):
+            return K(None)
+        if d == "getattr" and len(args) == 3:
+            return args[2]
+        return None
+
+    sc = CliScenario(repo, CLI, "main", hook)
+    mps = sc.fi.positional_params()
+    sc.run({mps[0]: S("argv"), mps[1]: K("stdout"), mps[2]: K("stderr")})
+    return recs
+
+
 def rule_flags(ctx: Ctx, repo: Repo) -> None:
+    from .cli_model import CLI, CliScenario
     main = repo.fn("monkeytype.cli", "main")
     ctx.functions.add(main.fq)
-    owners: Dict[str, str] = {}  # variable -> sub-command
-    for x in walk_no_nested(main.node):
-        if isinstance(x, ast.Assign) and isinstance(x.value, ast.Call) and isinstance(x.value.func, ast.Attribute):
-            tgt = dotted(x.targets[0])
-            if x.value.func.attr == "add_parser" and x.value.args and isinstance(x.value.args[0], ast.Constant):
-                owners[tgt] = x.value.args[0].value
-            elif x.value.func.attr in ("add_mutually_exclusive_group", "add_argument_group"):
-                base = dotted(x.value.func.value)
-                if base in owners:
-                    owners[tgt] = owners[base] + (":exclusive" if x.value.func.attr == "add_mutually_exclusive_group" else "")
-    found: Dict[Tuple[str, str], Dict[str, str]] = {}
-    for c in calls_in(main.node):
-        if isinstance(c.func, ast.Attribute) and c.func.attr == "add_argument" and c.args and isinstance(c.args[0], ast.Constant):
-            flag = c.args[0].value
-            if flag in ("--ignore-existing-annotations", "--omit-existing-annotations"):
-                owner = owners.get(dotted(c.func.value) or "", "?")
-                found[(owner.split(":")[0], flag)] = {k.arg: norm(k.value) for k in c.keywords} | {"_owner": owner}
+    recs = argparse_table(repo)
+    ctx.floor("R-C13.4", "add_argument calls reached from main", len(recs), 10)
+    sc0 = CliScenario(repo, CLI, "main")
+    def tok(member: str) -> V:
+        return sc0.ri.interp.eval(ast.parse("ExistingAnnotationStrategy." + member, mode="eval").body, State())
+    found: Dict[Tuple[str, str], Tuple[bool, Dict[str, V]]] = {}
+    for cmd, excl, flags, kw in recs:
+        for f in flags:
+            if f in ("--ignore-existing-annotations", "--omit-existing-annotations"):
+                found[(cmd, f)] = (excl, kw)
     table = [("stub", "--ignore-existing-annotations", "IGNORE"), ("stub", "--omit-existing-annotations", "OMIT"), ("apply", "--ignore-existing-annotations", "IGNORE")]
     for cmd, flag, const in table:
-        kw = found.get((cmd, flag))
-        ok = kw is not None and kw.get("action") == "'store_const'" and kw.get("dest") == "'existing_annotation_strategy'" and \
-            kw.get("const") == f"ExistingAnnotationStrategy.{const}" and kw.get("default") == "ExistingAnnotationStrategy.REPLICATE"
-        ctx.check(ok, "R-C13.4", main.fq, f"`{cmd} {flag}` stores {const} into existing_annotation_strategy (default REPLICATE)", construct=f"{cmd} {flag}: {kw}")
-    excl = [found.get(("stub", f), {}).get("_owner", "") for f in ("--ignore-existing-annotations", "--omit-existing-annotations")]
-    ctx.check(all(o.endswith(":exclusive") for o in excl), "R-C13.4", main.fq, "ignore and omit are mutually exclusive on `stub`", construct=str(excl))
+        ent = found.get((cmd, flag))
+        kw = ent[1] if ent else None
+        ok = kw is not None and kw.get("action") == K("store_const") and kw.get("dest") == K("existing_annotation_strategy") and \
+            kw.get("const") == tok(const) and kw.get("default") == tok("REPLICATE")
+        ctx.check(ok, "R-C13.4", main.fq, f"`{cmd} {flag}` stores {const} into existing_annotation_strategy (default REPLICATE)",
+                  construct=f"{cmd} {flag}: {None if kw is None else {k: str(v) for k, v in kw.items() if k != 'help'}}")
+    excl = [found.get(("stub", f), (False, {}))[0] for f in ("--ignore-existing-annotations", "--omit-existing-annotations")]
+    ctx.check(all(excl), "R-C13.4", main.fq, "ignore and omit are mutually exclusive on `stub`", construct=str(excl))
     ctx.check(("apply", "--omit-existing-annotations") not in found, "R-C13.4", main.fq, "`apply` has no omit flag", construct=str(sorted(found)))
     ah = repo.fn("monkeytype.cli", "apply_stub_handler")
     ctx.functions.add(ah.fq)
